@@ -237,6 +237,9 @@ let run_op (op : string) (r : rd) : unit =
   | "relative_path" -> let a = get_list r get_str in let b = get_list r get_str in put_list put_str (Paths.relative_path a b)
   | "norm_join" -> let a = get_list r get_str in let b = get_list r get_str in put_list put_str (Paths.norm_join a b)
   | "common_prefix_all" -> put_list put_str (Paths.common_prefix_all (get_list r (fun r -> get_list r get_str)))
+  | "sd_include" -> let s = get_sdict r in let c = get_int r in let a = get_list r get_str in
+                    let b = get_list r get_str in let p = get_str r in
+                    put_res (fun (s, c) -> put_sdict s; sp (); put_int c) (Paths.sd_include s c a b p)
   | "include_chain" -> let rel = get_list r get_str in
                        let d = Paths.include_directive_text rel in put_str d; sp (); put_opt put_str (Paths.directive_name d)
   | "write_text" -> let foam = get_bool r in let p = get_str r in let ex = get_opt r get_str in let ap = get_bool r in
